@@ -526,3 +526,83 @@ func addEdits(r *rng, c *ccase) {
 		}
 	}
 }
+
+// ifacesub: an ordinary chain in which one concrete type is replaced by an interface it implements,
+// everywhere (the interface type is passed around like any other type, upward too) or only on the
+// consuming side (the producers become Loose for it).
+func init() {
+	streams["ifacesub"] = &stream{gen: func(r *rng) string {
+		c := genChain(r, chainOpts{moreWrap: r.chance(1, 3), moreStatic: r.chance(1, 3)})
+		ifaceSubst(r, c)
+		return c.encode()
+	}, run: runChain}
+}
+
+func substIn(l []int, from, to int, r *rng, prob int) []int {
+	out := append([]int{}, l...)
+	for i, x := range out {
+		if x == from && r.chance(prob, 100) {
+			out[i] = to
+		}
+	}
+	return out
+}
+
+func ifaceSubst(r *rng, c *ccase) {
+	pairs := [][2]int{{pT0, pI0}, {pT1, pI1}, {pT2, pI2}, {pU0, pJ0}, {pT1, pI0}, {pT3, pI2}, {pT3, pI0}, {pT1, pJ0}}
+	// a pair whose concrete type occurs in the chain
+	used := map[int]bool{}
+	for _, p := range c.provs {
+		for _, l := range [][]int{p.ins, p.outs, p.innerIns, p.innerOuts} {
+			for _, t := range l {
+				used[t] = true
+			}
+		}
+		if p.shape == 1 {
+			used[p.lit] = true
+		}
+	}
+	var cands [][2]int
+	for _, pr := range pairs {
+		if used[tcOf(pr[0])] {
+			cands = append(cands, pr)
+		}
+	}
+	if len(cands) == 0 {
+		return
+	}
+	pr := cands[r.intn(len(cands))]
+	t, i := tcOf(pr[0]), tcOf(pr[1])
+	full := r.chance(1, 2)
+	for _, p := range c.provs {
+		if full {
+			if p.shape != 1 {
+				p.ins, p.outs = substIn(p.ins, t, i, r, 100), substIn(p.outs, t, i, r, 100)
+				p.innerIns, p.innerOuts = substIn(p.innerIns, t, i, r, 100), substIn(p.innerOuts, t, i, r, 100)
+				p.mc, p.co, p.sa = substIn(p.mc, t, i, r, 100), substIn(p.co, t, i, r, 100), substIn(p.sa, t, i, r, 100)
+			} else if p.lit == t {
+				// a literal stays concrete: make it Loose for the interface
+				if !containsInt(p.loose, i) {
+					p.loose = append(append([]int{}, p.loose...), i)
+				}
+			}
+			continue
+		}
+		// consuming side only
+		producesDown := containsInt(p.outs, t) && p.shape == 2 || p.shape == 3 && containsInt(p.innerIns, t) || p.shape == 1 && p.lit == t
+		producesUp := (p.shape == 3 || p.shape == 2) && containsInt(p.outs, t)
+		if (producesDown || producesUp) && !containsInt(p.loose, i) {
+			p.loose = append(append([]int{}, p.loose...), i)
+		}
+		p.ins = substIn(p.ins, t, i, r, 50)
+		if p.shape == 3 {
+			p.innerOuts = substIn(p.innerOuts, t, i, r, 50)
+		}
+	}
+	if full {
+		c.invIns, c.invOuts = substIn(c.invIns, t, i, r, 100), substIn(c.invOuts, t, i, r, 100)
+		c.initIns, c.initOuts = substIn(c.initIns, t, i, r, 100), substIn(c.initOuts, t, i, r, 100)
+	} else {
+		c.invOuts = substIn(c.invOuts, t, i, r, 30)
+	}
+}
